@@ -8,8 +8,10 @@ transaction can produce).  The datastore (badger through go-ds-badger4, no key t
 map; it is modelled as an association list **sorted strictly ascending by bytewise lexicographic key
 order** – the order of Go's `sort.Strings`, which `computeStateRoot` applies to the queried keys.
 
-Everything is mirrored *as coded*, including the defect that `SetFinal` writes `/finalizedHeight` into
-the key space that `computeStateRoot` hashes.
+Everything is mirrored *as coded*.  There are three reserved keys – the two genesis keys and
+`/finalizedHeight` (written by `SetFinal`): `computeStateRoot` skips them and `ExecuteTxs` rejects a
+transaction that names one of them (since /repo commit 511b618; before it `/finalizedHeight` was an
+ordinary hashed key and the root depended on finalize timing).
 -/
 namespace KVExec
 
@@ -58,7 +60,8 @@ def mempoolCap : Nat := 10000
 /-- the constant gas value returned by `InitChain` / `ExecuteTxs` -/
 def gasConst : Nat := 1024
 
-def isReserved (k : Key) : Bool := k = genInitKey || k = genRootKey
+/-- the reserved keys: `genesisInitializedKey`, `genesisStateRootKey`, `finalizedHeightKey` -/
+def isReserved (k : Key) : Bool := k = genInitKey || k = genRootKey || k = finalKey
 
 /-! ## `ds.NewKey`: `path.Clean("/" + s)` -/
 
@@ -128,7 +131,7 @@ def trimSpace (s : Bytes) : Bytes :=
 inductive Err where
   | malformed      -- no '='
   | emptyKey       -- key empty after trimming
-  | reserved       -- key normalises to a reserved genesis key
+  | reserved       -- key normalises to a reserved key (genesis keys, /finalizedHeight)
   | zeroHeight     -- SetFinal(0)
   | genesisCorrupt -- initialised flag present but genesis root missing (unreachable)
   deriving DecidableEq, Repr
@@ -170,7 +173,7 @@ def stage : List Bytes → Except Err (List (Key × Bytes))
 
 def entryBytes (e : Key × Bytes) : Bytes := e.1 ++ 58 :: e.2 ++ [59]     -- "%s:%s;"
 
-/-- the part of the store that `computeStateRoot` looks at: everything but the two genesis keys -/
+/-- the part of the store that `computeStateRoot` looks at: everything but the three reserved keys -/
 def user (s : Store) : Store := s.filter fun e => !isReserved e.1
 
 def rootRaw : Store → Bytes
@@ -219,6 +222,7 @@ def executeTxs (s : St) (txs : List Bytes) : St × Res :=
     let st := applyWrites ws s.store
     ({ s with store := st }, .ok (root st))
 
+/-- `SetFinal`: a plain `Put` of the reserved key `/finalizedHeight` (never hashed, see `user`) -/
 def setFinal (s : St) (h : Nat) : St × Option Err :=
   if h = 0 then (s, some .zeroHeight)
   else ({ s with store := put finalKey (dec h) s.store }, none)
